@@ -173,11 +173,29 @@ POOL = Pool()
 
 
 def raw_text(s):
+    """printable ASCII runs as string literals, every other code point as a number"""
     if not s:
         return '(@nil Z)'
-    if all(32 <= ord(c) < 127 and c != '"' for c in s):
-        return '(s2z "%s")' % s
-    return '[' + '; '.join('%d' % ord(c) for c in s) + ']%Z'
+    parts, run, nums = [], [], []
+
+    def flush():
+        if run:
+            parts.append('s2z "%s"' % ''.join(run))
+            del run[:]
+        if nums:
+            parts.append('[' + '; '.join(nums) + ']%Z')
+            del nums[:]
+    for c in s:
+        if 32 <= ord(c) < 127 and c != '"':
+            if nums:
+                flush()
+            run.append(c)
+        else:
+            if run:
+                flush()
+            nums.append('%d' % ord(c))
+    flush()
+    return '(' + ' ++ '.join(parts) + ')'
 
 
 def ctext(s):
@@ -710,9 +728,8 @@ def judge(mode, credit, attempt, inp, rec):
 # ------------------------------------------------------------------------------------------------
 # anticipated problems: (zoo entry, input spec, class name, message) -- the documented class and text
 # ------------------------------------------------------------------------------------------------
+GENERIC = object()     # the generic error: 'Invalid Input: Could not check input(s) ...' naming what was submitted
 DOMAIN = 'There was an error evaluating %s(...). Its input does not seem to be in its domain.'
-BOTH_MSG = ("The student_input passed to a grader should be:\n - a text string for problems with a single input box\n"
-            " - a list of text strings for problems with multiple input boxes\nReceived student_input of %s")
 ANTICIPATED = [
     ('Formula', '1/0', 'CalcZeroDivisionError', "Division by zero occurred. Check your input's denominators."),
     ('Formula', '0^-1', 'CalcZeroDivisionError', "Division by zero occurred. Check your input's denominators."),
@@ -771,25 +788,25 @@ ANTICIPATED = [
     ('Echo', 'lib', 'InvalidInput', 'line one<br/>line two'),
     ('Echo', 'cfg', 'ConfigError', 'cfg one<br/>cfg two'),
     # unanticipated failures: the generic error naming the submission
-    ('Echo', 'boom', 'StudentFacingError', "Invalid Input: Could not check input 'boom'"),
-    ('Echo', 'deep', 'StudentFacingError', "Invalid Input: Could not check input 'deep'"),
-    ('Echo', 'mem', 'StudentFacingError', "Invalid Input: Could not check input 'mem'"),
-    ('Echo', ['list', ['a', 'boom', 'c']], 'StudentFacingError', "Invalid Input: Could not check inputs 'a', 'boom', 'c'"),
-    ('Formula', '(' * 2500 + '1' + ')' * 2500, 'StudentFacingError', "Invalid Input: Could not check input '" + '(' * 2500 + '1' + ')' * 2500 + "'"),
-    # input objects of the wrong kind
-    ('String', ['obj', 'int'], 'ConfigError', "Expected string for student_input, received <class 'int'>"),
-    ('String', ['obj', 'None'], 'ConfigError', "Expected string for student_input, received <class 'NoneType'>"),
-    ('Formula', ['list', ['1']], 'ConfigError', "Expected string for student_input, received <class 'list'>"),
-    ('Formula', ['obj', 'bytes'], 'ConfigError', "Expected string for student_input, received <class 'bytes'>"),
-    ('SingleList/str', ['list', ['a', 'b', 'c']], 'ConfigError', "Expected string for student_input, received <class 'list'>"),
-    ('List/str', 'a', 'ConfigError', "Expected student_input to be a list of text strings, but received <class 'str'>"),
-    ('List/str', ['obj', 'tuple'], 'ConfigError', "Expected student_input to be a list of text strings, but received <class 'tuple'>"),
-    ('List/str', ['list', ['a', ['obj', 'int']]], 'ConfigError',
-     "Expected a list of text strings for student_input, but item at position 1 has <class 'int'>"),
-    ('List/str', ['list', [['list', ['a']], 'b']], 'ConfigError',
-     "Expected a list of text strings for student_input, but item at position 0 has <class 'list'>"),
-    ('Echo', ['obj', 'int'], 'ConfigError', BOTH_MSG % "<class 'int'>"),
-    ('Echo', ['list', ['a', ['obj', 'None']]], 'ConfigError', BOTH_MSG % "<class 'list'>"),
+    ('Echo', 'boom', 'StudentFacingError', GENERIC),
+    ('Echo', 'deep', 'StudentFacingError', GENERIC),
+    ('Echo', 'mem', 'StudentFacingError', GENERIC),
+    ('Echo', ['list', ['a', 'boom', 'c']], 'StudentFacingError', GENERIC),
+    ('Formula', '(' * 2500 + '1' + ')' * 2500, 'StudentFacingError', GENERIC),
+    # input objects of the wrong kind: refused with a configuration error (the text is not part of the property)
+    ('String', ['obj', 'int']) + ('ConfigError', None),
+    ('String', ['obj', 'None']) + ('ConfigError', None),
+    ('Formula', ['list', ['1']]) + ('ConfigError', None),
+    ('Formula', ['obj', 'bytes']) + ('ConfigError', None),
+    ('SingleList/str', ['list', ['a', 'b', 'c']]) + ('ConfigError', None),
+    ('List/str', 'a') + ('ConfigError', None),
+    ('List/str', ['obj', 'tuple']) + ('ConfigError', None),
+    ('List/str', ['list', ['a', ['obj', 'int']]]) + ('ConfigError', None),
+    ('List/str', ['list', [['list', ['a']], 'b']]) + ('ConfigError', None),
+    ('Echo', ['obj', 'int']) + ('ConfigError', None),
+    ('Echo', ['list', ['a', ['obj', 'None']]]) + ('ConfigError', None),
+    ('Sum', ['obj', 'dict']) + ('ConfigError', None),
+    ('Matrix', ['list', ['[1,2]']]) + ('ConfigError', None),
 ]
 
 
@@ -811,7 +828,17 @@ def check_anticipated(row):
         return 'expected %s, the call %s' % (cls, 'returned %r' % (val,) if st == 'ret' else 'timed out')
     if type(val).__name__ != cls:
         return 'expected %s, got %s: %s' % (cls, type(val).__name__, str(val)[:200])
-    if str(val) != msg:
+    if msg is GENERIC:
+        texts = [inp] if isinstance(inp, str) else list(inp)
+        got, pos = str(val), 0
+        if not got.startswith('Invalid Input: Could not check input'):
+            return 'generic error text is %r' % got[:200]
+        for t in texts:
+            k = got.find(t, pos)
+            if k < 0:
+                return 'generic error does not name the submitted text %r' % t[:80]
+            pos = k + len(t)
+    elif msg is not None and str(val) != msg:
         return 'expected message %r, got %r' % (msg[:300], str(val)[:300])
     return None
 
@@ -878,8 +905,8 @@ def add_call_case(terms, metas, mode, debug, credit, attempt, inp, spec, rec, na
 
 def run_calls(ctx, res, rng):
     quick = ctx['tier'] == 'quick'
-    n_random = (4000 if ctx['escalate'] else 2000) if quick else 30000
-    per_signature = (6 if ctx['escalate'] else 3) if quick else 40
+    n_random = (3000 if ctx['escalate'] else 2000) if quick else 12000
+    per_signature = (4 if ctx['escalate'] else 3) if quick else 20
     Z = zoo()
     graders = {}
     for name, mode, factory, credit in Z:
@@ -972,7 +999,7 @@ def run_calls(ctx, res, rng):
     for args in picked:
         add_call_case(terms, metas, *args)
     res.samples.append({'call': metas[len(metas) // 2] if metas else None})
-    coq_eval(res, 'c02_call', 'call_case', terms, metas, 'nat * bool * bool * option Z * pyval * raw * fin', 'call', 12)
+    coq_eval(res, 'c02_call', 'call_case', terms, metas, 'nat * bool * bool * option Z * pyval * raw * fin', 'call', 12 if quick else 16)
     return recorder.sites
 
 
@@ -1047,7 +1074,7 @@ def run_ensure(ctx, res):
                 res.disagreements.append({'kind': 'ensure-wrapper', 'class': cls.__name__, 'input': spec})
     res.distribution['ensure_text_inputs_cases'] = len(terms)
     res.samples.append({'ensure_text_inputs': metas[len(metas) // 2]})
-    coq_eval(res, 'c02_ensure', 'ensure_case', terms, metas, 'bool * bool * pyval * fin', 'ensure', 4)
+    coq_eval(res, 'c02_ensure', 'ensure_case', terms, metas, 'bool * bool * pyval * fin', 'ensure', 4 if quick else 12)
 
 
 def balanced_py(s):
@@ -1070,7 +1097,7 @@ def run_brackets(ctx, res, rng):
     strings = []
     for n in range(L + 1):
         strings += [(''.join(p), n <= CL) for p in itertools.product('()[]{}a', repeat=n)]
-    n_rand = 500 if quick else 6000
+    n_rand = 400 if quick else 3000
     for _ in range(n_rand):
         k = rng.randint(5, 40)
         if rng.random() < 0.5:
@@ -1104,10 +1131,10 @@ def run_brackets(ctx, res, rng):
     res.distribution['bracket_strings_oracle_exhaustive_up_to_length'] = L
     res.distribution['bracket_strings_correspondence'] = len(terms)
     res.distribution['bracket_strings_correspondence_exhaustive_up_to_length'] = CL
-    coq_eval(res, 'c02_bv', 'bv_case', terms, metas, 'cstr * option cstr', 'brackets', 6)
+    coq_eval(res, 'c02_bv', 'bv_case', terms, metas, 'cstr * option cstr', 'brackets', 6 if quick else 16)
     # MathParser.parse with the engine's outcome as oracle
     P = MathParser()
-    texts = [s for s in CORPUS] + [gen_text(rng) for _ in range(250 if quick else 5000)]
+    texts = [s for s in CORPUS] + [gen_text(rng) for _ in range(200 if quick else 2000)]
     texts += ['(' * 2500 + '1' + ')' * 2500, '1 + ( 2', ' ( 1 ) + ', '1 +', ' 1 + 2 ', '( [ ) ]']
     pool_reset()
     terms, metas = [], []
@@ -1139,7 +1166,7 @@ def run_brackets(ctx, res, rng):
         if st == 'exc':
             res.nontrivial.add(('parse', s))
     res.distribution['parse_outcomes'] = kinds
-    coq_eval(res, 'c02_parse', 'parse_case', terms, metas, 'cstr * option (list string * cstr) * fin', 'parse', 4)
+    coq_eval(res, 'c02_parse', 'parse_case', terms, metas, 'cstr * option (list string * cstr) * fin', 'parse', 4 if quick else 12)
 
 
 # ------------------------------------------------------------------------------------------------
@@ -1208,7 +1235,7 @@ def run_trees(ctx, res, rng):
     pool_reset()
     funcs = scripted_functions()
     g = FormulaGrader(answers='0', user_functions={k: v[0] for k, v in funcs.items()}, samples=1)
-    n_cases = 600 if ctx['tier'] == 'quick' else 8000
+    n_cases = 500 if ctx['tier'] == 'quick' else 3000
     terms, metas = [], []
     seen = set()
     for i in range(n_cases):
@@ -1233,7 +1260,7 @@ def run_trees(ctx, res, rng):
         hist[m['outcome']] = hist.get(m['outcome'], 0) + 1
     res.distribution['scripted_tree_outcomes'] = hist
     res.samples.append({'scripted_tree': metas[len(metas) // 2] if metas else None})
-    coq_eval(res, 'c02_tree', 'tree_case', terms, metas, 'cstr * node v * fin', 'tree', 4)
+    coq_eval(res, 'c02_tree', 'tree_case', terms, metas, 'cstr * node v * fin', 'tree', 4 if ctx['tier'] == 'quick' else 12)
 
 
 # ------------------------------------------------------------------------------------------------
@@ -1287,6 +1314,13 @@ def run_numpy(ctx, res, rng):
 
 # ------------------------------------------------------------------------------------------------
 def run(ctx):
+    import glob
+    import os
+    for f in glob.glob(os.path.join(core.CASES, 'c02_*.v')):       # stale shards of an earlier, larger run
+        try:
+            os.remove(f)
+        except OSError:
+            pass
     res = core.Result()
     rng = random.Random(1000003 * ctx['seed'] + 2)
     res.rule = ('calls: one case per (grader configuration, input object); non-trivial = the call raised from check or was refused '
@@ -1322,7 +1356,7 @@ def run(ctx):
     what = numpy_state_problem()
     if what:
         res.witnesses.append({'key': 'numpy-state-after', 'kind': 'numpy', 'what': 'after the run: ' + what})
-    res.samples.append({'anticipated': list(ANTICIPATED[5])})
+    res.samples.append({'anticipated': [str(x) for x in ANTICIPATED[5]]})
     return res
 
 
@@ -1363,9 +1397,21 @@ def replay(w):
         return bad, 'BracketValidator.validate(%r) -> %s %r (balanced: %r)' % (w['text'], st, val, bal)
     if kind == 'parse':
         from mitxgraders.helpers.calc.expressions import MathParser
+        from mitxgraders.helpers.calc.exceptions import UnbalancedBrackets, UnableToParse
         P = MathParser()
-        st, val = core.guarded(P.parse, w['text'])
-        return True, 'MathParser.parse(%r) -> %s %r; recorded: %s' % (w['text'], st, val, w.get('what'))
+        text = w['text']
+        stripped = text.replace(' ', '')
+        st, val = core.guarded(P.parse, text)
+        gst, gval = core.guarded(MathParser().grammar.parseString, stripped)
+        bal = balanced_py(stripped)
+        bad = (st == 'exc' and not bal and type(val) is not UnbalancedBrackets) or (
+            bal and gst == 'exc' and type(gval).__name__ == 'ParseException' and not (
+                st == 'exc' and type(val) is UnableToParse and str(val) == "Invalid Input: Could not parse '%s' as a formula" % text))
+        return bad, 'MathParser.parse(%r) -> %s %r (balanced: %r, grammar: %s)' % (text[:200], st, val, bal, gst)
+    if kind == 'construct':
+        mode, factory, credit = zoo_entry(w['grader'])
+        st, g = core.guarded(factory, False)
+        return st != 'ret', 'constructing %s: %s %r' % (w['grader'], st, g if st != 'ret' else 'ok')
     if kind == 'numpy':
         what = numpy_state_problem()
         return bool(what), what or 'numpy error state as required'
